@@ -16,6 +16,7 @@
  *     32 node->hash stale   64 red-black tree / lyds metadata   128 ids of the table not all reachable
  */
 #include <assert.h>
+#include <ctype.h>
 #include <unistd.h>
 #include <signal.h>
 #include "proto.h"
@@ -1187,6 +1188,167 @@ rb_op(const char *id, char *keys)
     fflush(stdout);
     lyd_free_all(c);
 }
+
+/* `rbs`: a script of `i<key>` (lyd_new_term), `u<idx>` (lyd_free_tree of the idx-th instance in sibling order: lyd_unlink ->
+ * lyds_unlink -> rb_remove_node) and `m<idx>` (lyd_unlink_tree + lyd_insert_child of the same node) on the first
+ * system-ordered int leaf-list of the first top-level container.  After EVERY op: the red-black tree (pre-order, colour,
+ * value:creation serial), which instances carry `lyds_tree` metadata (M0 = the leader only, M- = none), the white-box
+ * verdict of check_rb() and the instances in sibling order. */
+static struct lyd_node *rbs_tab[4096];
+static int rbs_n;
+
+static int
+rbs_serial(const struct lyd_node *n)
+{
+    for (int i = 0; i < rbs_n; i++) if (rbs_tab[i] == n) return i;
+    return -1;
+}
+
+static void
+rbs_shape(const struct rb_node *r)
+{
+    if (!r) { fputs(" .", stdout); return; }
+    fprintf(stdout, " %c%s:%d", r->color == RB_RED ? 'R' : 'B', lyd_get_value(r->dnode), rbs_serial(r->dnode));
+    rbs_shape(r->left);
+    rbs_shape(r->right);
+}
+
+static void
+rbs_show(struct lyd_node *c, const struct lysc_node *ll)
+{
+    struct lyd_node *n, *leader = NULL;
+    struct lyd_meta *mt;
+    int i = 0, first = 1;
+
+    LY_LIST_FOR(lyd_child(c), n) if (n->schema == ll) { leader = n; break; }
+    fputs(" |", stdout);
+    rbs_shape(leader ? lyds_get_rb_tree(leader, NULL) : NULL);
+    fputs(" M", stdout);
+    LY_LIST_FOR(lyd_child(c), n) {
+        if (n->schema != ll) continue;
+        mt = NULL;
+        lyds_get_rb_tree(n, &mt);
+        if (mt) { fprintf(stdout, "%s%d", first ? "" : "+", i); first = 0; }
+        i++;
+    }
+    if (first) fputc('-', stdout);
+    fprintf(stdout, " V%u =", check_rb(lyd_child(c)));
+    LY_LIST_FOR(lyd_child(c), n) if (n->schema == ll) fprintf(stdout, " %s:%d", lyd_get_value(n), rbs_serial(n));
+}
+
+/* run an rbs script inside container `c` (created by the caller); prints the state after every op when `show` */
+static void
+rbs_run(struct lyd_node *c, const struct lysc_node *ll, char *script, int show)
+{
+    struct lyd_node *n, *nw;
+    char *k[4096];
+    int nk, i, j, idx;
+
+    nk = split(script, ',', k, 4096);
+    for (i = 0; i < nk; i++) {
+        if (!k[i][0]) continue;
+        if (k[i][0] == 'i') {
+            nw = NULL;
+            if (rbs_n >= 4096 || lyd_new_term(c, ll->module, ll->name, k[i] + 1, 0, &nw) || !nw) { if (show) fputs(" | R:BadKey", stdout); continue; }
+            rbs_tab[rbs_n++] = nw;
+        } else if (k[i][0] == 'u' || k[i][0] == 'm') {
+            idx = atoi(k[i] + 1);
+            j = 0;
+            nw = NULL;
+            LY_LIST_FOR(lyd_child(c), n) {
+                if (n->schema != ll) continue;
+                if (j++ == idx) { nw = n; break; }
+            }
+            if (!nw || !isdigit((unsigned char)k[i][1])) { if (show) fputs(" | R:NoInst", stdout); continue; }
+            if (k[i][0] == 'u') {
+                j = rbs_serial(nw);
+                lyd_free_tree(nw);
+                if (j >= 0) rbs_tab[j] = NULL;
+            } else {
+                lyd_unlink_tree(nw);
+                if (lyd_insert_child(c, nw)) { if (show) fputs(" | R:InsertFailed", stdout); lyd_free_tree(nw); continue; }
+            }
+        } else {
+            if (show) fputs(" | R:BadOp", stdout);
+            continue;
+        }
+        if (show) rbs_show(c, ll);
+    }
+}
+
+static const struct lysc_node *
+rbs_schema(const struct lysc_node **cont_p)
+{
+    const struct lysc_node *cont = NULL, *ll = NULL, *s = NULL;
+
+    for (int i = 0; i < cur->nsn && !cont; i++) {
+        if (cur->sparent[i] < 0 && cur->snode[i]->nodetype == LYS_CONTAINER) cont = cur->snode[i];
+    }
+    while (cont && (s = lys_getnext(s, cont, NULL, 0))) {
+        if (s->nodetype == LYS_LEAFLIST && (s->flags & LYS_ORDBY_SYSTEM) && !strcmp(ktype_of(s), "i32")) { ll = s; break; }
+    }
+    *cont_p = cont;
+    return ll;
+}
+
+static void
+rbs_op(const char *id, char *script)
+{
+    const struct lysc_node *cont, *ll = rbs_schema(&cont);
+    struct lyd_node *c = NULL;
+
+    if (!ll || lyd_new_inner(NULL, cont->module, cont->name, 0, &c)) { vp_reply(id, "err NoList"); return; }
+    rbs_n = 0;
+    fprintf(stdout, "%s ok", id);
+    rbs_run(c, ll, script, 1);
+    fputc('\n', stdout);
+    fflush(stdout);
+    lyd_free_all(c);
+}
+
+/* `rbm <dst script> <src script>`: two containers are filled by rbs scripts; then ALL instances of the second (a leading `D`
+ * in the source script: a lyd_dup_siblings() copy of them, which has no sorting tree) are moved into the first in one call
+ * (lyd_unlink_siblings + lyd_insert_child of a node with siblings -> lyd_move_nodes -> lyds_merge; a single source
+ * instance goes through lyd_insert_node). */
+static void
+rbm_op(const char *id, char *dscript, char *sscript)
+{
+    const struct lysc_node *cont, *ll = rbs_schema(&cont);
+    struct lyd_node *a = NULL, *b = NULL, *first, *dup = NULL, *o, *d;
+    int dupmode = sscript[0] == 'D';
+
+    if (!ll || lyd_new_inner(NULL, cont->module, cont->name, 0, &a) || lyd_new_inner(NULL, cont->module, cont->name, 0, &b)) {
+        lyd_free_all(a);
+        vp_reply(id, "err NoList");
+        return;
+    }
+    rbs_n = 0;
+    rbs_run(a, ll, dscript, 0);
+    rbs_run(b, ll, sscript + dupmode, 0);
+    first = lyd_child(b);
+    if (!first || !lyd_child(a)) { lyd_free_all(a); lyd_free_all(b); vp_reply(id, "err Empty"); return; }
+    if (dupmode) {
+        if (lyd_dup_siblings(first, NULL, 0, &dup) || !dup) { lyd_free_all(a); lyd_free_all(b); vp_reply(id, "err Dup"); return; }
+        for (o = first, d = dup; o && d; o = o->next, d = d->next) {
+            int j = rbs_serial(o);
+            if (j >= 0) rbs_tab[j] = d;
+        }
+        first = dup;
+    } else if (lyd_unlink_siblings(first)) {
+        lyd_free_all(a); lyd_free_all(b); vp_reply(id, "err Unlink"); return;
+    }
+    fprintf(stdout, "%s ok", id);
+    if (lyd_insert_child(a, first)) {
+        fputs(" | R:InsertFailed", stdout);
+        lyd_free_siblings(first);
+    } else {
+        rbs_show(a, ll);
+    }
+    fputc('\n', stdout);
+    fflush(stdout);
+    lyd_free_all(a);
+    lyd_free_all(b);
+}
 #endif
 
 /* a request that does not finish (a cyclic structure inside libyang): say so and give up this process */
@@ -1221,6 +1383,33 @@ sib_main(void)
 #else
             vp_reply(id, "err NoWb");
 #endif
+            continue;
+        }
+        if (r.ntok == 7 && !strcmp(r.tok[1], "sib") && !strcmp(r.tok[2], "rbs")) {
+            /* rbs <variant> <desc> <yang> <script>: insert / unlink script, red-black shape after every op */
+#ifdef SIB_WB
+            cur = get_ctx(r.tok[5]);
+            if (!cur) { vp_reply(id, "err BadSchema"); continue; }
+            rbs_op(id, r.tok[6]);
+#else
+            vp_reply(id, "err NoWb");
+#endif
+            continue;
+        }
+        if (r.ntok == 8 && !strcmp(r.tok[1], "sib") && !strcmp(r.tok[2], "rbm")) {
+            /* rbm <variant> <desc> <yang> <dst script> <src script>: bulk move of a (leaf-)list onto another (lyds_merge) */
+#ifdef SIB_WB
+            cur = get_ctx(r.tok[5]);
+            if (!cur) { vp_reply(id, "err BadSchema"); continue; }
+            rbm_op(id, r.tok[6], r.tok[7]);
+#else
+            vp_reply(id, "err NoWb");
+#endif
+            continue;
+        }
+        if (r.ntok == 3 && !strcmp(r.tok[1], "sib") && !strcmp(r.tok[2], "rbleak")) {
+            /* everything the rb scripts allocated (red-black nodes, lyds_tree metadata) is released again */
+            vp_reply(id, "ok %d", VP_LEAKCHECK());
             continue;
         }
         if (r.ntok != 7 || strcmp(r.tok[1], "sib") || strcmp(r.tok[2], "run")) {
